@@ -122,6 +122,12 @@ def poll (st : State) : Bool × State :=
 
 end State
 
+/-- the deferred block of `do()`: `if outing1 { defer { skip = true; outing1 = false; outing2 = true } }` -/
+def outing1Defer (st : State) : State :=
+  match st.stepper with
+  | some sp => if sp.outing1 then { st with stepper := some { sp with skip := true, outing1 := false, outing2 := true } } else st
+  | none => st
+
 def timeoutErr (ast : Val) : Err :=
   newLispError (.plain "timeout while evaluating expression") ast
 
@@ -335,7 +341,7 @@ def evalLoop : Nat → State → Nat → Val → Nat → R
             | .oof => (.oof, st)
             | _ =>
               match parts.finallyDo with
-              | none => (r, st)
+              | none => (r, outing1Defer st)      -- `do(ctx, nil, …)` still runs its `outing1` prologue
               | some fin =>
                 match doForms fuel st env fin 0 false d with
                 | (.oof, st) => (.oof, st)
